@@ -120,6 +120,8 @@ pub fn corpus(format: usize, rng: &mut Rng, m128: bool) -> Vec<u8> {
                 with_mouse: rng.bool(),
                 fe_low: if rng.bool() { Some(rng.u8() & 7) } else { None },
                 fe_hi: rng.u8() & 0x18,
+                big_unknown: if rng.chance(1, 16) { 66000 + rng.below(5000) as usize } else { 0 },
+                zlib_exact: None,
             };
             write_szx(&s, &opt)
         }
@@ -632,7 +634,7 @@ impl Property for C15 {
         } else {
             if mode == 3 && format == 1 {
                 let s = sample_state(rng, file128);
-                let opt = SzxOptions { compress: vec![true; 8], order_seed: 0, unknown_chunks: 1, with_creator: true, with_ay: true, with_keyb: true, with_mouse: true, fe_low: None, fe_hi: 0 };
+                let opt = SzxOptions { compress: vec![true; 8], order_seed: 0, unknown_chunks: 1, with_creator: true, with_ay: true, with_keyb: true, with_mouse: true, fe_low: None, fe_hi: 0, ..Default::default() };
                 sc.push(Op::blob("file", &[], write_szx(&s, &opt)));
             } else {
                 sc.push(Op::blob("file", &[], corpus(format as usize, rng, file128)));
